@@ -67,7 +67,7 @@ def field_meta(cfg, st, orders_ord):
     raise ValueError(st)
 
 
-def build(cfg, kind, stat, forms, cond=False):
+def build(cfg, kind, stat, forms, cond=False, wc=False):
     """kind: struct | tuple | enum | union.  stat / forms: per field (field k uses parameter k)."""
     metas, carrier, partners, probes = CONFIGS[cfg]
     n = len(stat)
@@ -75,6 +75,12 @@ def build(cfg, kind, stat, forms, cond=False):
     gdecl = '<%s>' % ', '.join("%s: 'static" % p for p in params)
     gargs = '<%s>' % ', '.join(params)
     ftypes = [FORMS[forms[k]].format(P=params[k]) for k in range(n)]
+    wherec = ''
+    if wc:
+        # the bounds live in the type's where-clause and the fields use a projection that only exists under it
+        gdecl = '<%s>' % ', '.join(params)
+        wherec = ' where %s' % ', '.join("%s: 'static + Pr" % p for p in params)
+        ftypes = [FORMS[forms[k]].format(P=params[k] + '::Out') for k in range(n)]
     orders_ord = 'Ord' in metas
     fmetas = [field_meta(cfg, stat[k], orders_ord) for k in range(n)]
     copy_struct = cfg == 'Copy+Clone' and kind in ('struct', 'tuple')
@@ -93,9 +99,9 @@ def build(cfg, kind, stat, forms, cond=False):
             return None
         fmetas = [{0: 'Into(u64)', 1: 'Into(u32)'}.get(k) for k in range(n)]
     if kind == 'struct':
-        src += 'pub struct Ty%s {\n%s}\n' % (gdecl, ''.join('    %s,\n' % fl(k, True) for k in range(n)))
+        src += 'pub struct Ty%s {\n%s}\n' % (gdecl + wherec, ''.join('    %s,\n' % fl(k, True) for k in range(n)))
     elif kind == 'tuple':
-        src += 'pub struct Ty%s(\n%s);\n' % (gdecl, ''.join('    %s,\n' % fl(k, False) for k in range(n)))
+        src += 'pub struct Ty%s(\n%s)%s;\n' % (gdecl, ''.join('    %s,\n' % fl(k, False) for k in range(n)), wherec)
     elif kind == 'enum':
         # V0 holds the fields positionally, V1 holds them named; Default marks V1; a unit variant where allowed
         dm = '    #[educe(Default)]\n' if cfg == 'Default' else ''
@@ -103,18 +109,18 @@ def build(cfg, kind, stat, forms, cond=False):
         flip0 = '#[educe(Debug(named_field = true))] ' if cfg == 'Debug/flip' else ''
         flip1 = '    #[educe(Debug(named_field = false, name = false))]\n' if cfg == 'Debug/flip' else ''
         dm = dm + flip1
-        src += 'pub enum Ty%s {\n    %sV0(%s),\n%s    V1 { %s },\n%s}\n' % (gdecl, flip0, ', '.join(ftypes[k] for k in range(n)) if cfg in ('Default',) else ', '.join(fl(k, False) for k in range(n)),
+        src += 'pub enum Ty%s {\n    %sV0(%s),\n%s    V1 { %s },\n%s}\n' % (gdecl + wherec, flip0, ', '.join(ftypes[k] for k in range(n)) if cfg in ('Default',) else ', '.join(fl(k, False) for k in range(n)),
                                                                          dm, ', '.join(fl(k, True) for k in range(n)), unit)
     else:
         md = lambda t: 'std::mem::ManuallyDrop<%s>' % t
         dmark = '#[educe(Default)] ' if cfg == 'Default' else ''
-        src += 'pub union Ty%s {\n%s    pad: u8,\n}\n' % (gdecl, ''.join('    %sf%d: %s,\n' % (dmark if k == 0 else '', k, md(ftypes[k])) for k in range(n)))
+        src += 'pub union Ty%s {\n%s    pad: u8,\n}\n' % (gdecl + wherec, ''.join('    %sf%d: %s,\n' % (dmark if k == 0 else '', k, md(ftypes[k])) for k in range(n)))
         ftypes = [md(t) for t in ftypes]
     if cond and not partners:
         return None
     gcond = '<%s>' % ', '.join("%s: 'static%s" % (p, ' + Mk' if k == 0 else '') for k, p in enumerate(params))
     for p in partners:
-        src += PARTNER_IMPL[p].format(G=gcond if cond else gdecl, A=gargs)
+        src += PARTNER_IMPL[p].format(G=gcond if cond else gdecl, A=gargs + wherec)
     body = ''
     for inst in itertools.product(['Yes', 'No'], repeat=n):
         targs = '<%s>' % ', '.join(inst)
@@ -146,7 +152,7 @@ def build(cfg, kind, stat, forms, cond=False):
                         r = 'Clone'
                     if kind == 'union' and cfg == 'Clone':
                         r = 'Copy'
-                    ft = FORMS[forms[k]].format(P=inst[k])
+                    ft = FORMS[forms[k]].format(P=('<%s as Pr>::Out' % inst[k]) if wc else inst[k])
                     if kind == 'union':
                         ft = 'std::mem::ManuallyDrop<%s>' % ft
                     terms.append('probe!(%s: %s)' % (ft, PATH[r]))
@@ -161,7 +167,7 @@ def build(cfg, kind, stat, forms, cond=False):
             body += '    r.ck(probe!(Ty%s: %s) == probe!(Ty%s: %s), 4, &|| "companion and primary impl apply to different instantiations at %s".to_string());\n' % (
                 targs, PATH[probes[0][0]], targs, PATH[probes[1][0]], targs) if cfg not in ('Copy+Clone',) or not (kind == 'enum' and 'm' in stat) else ''
     src += 'pub fn check(r: &mut Rep) {\n%s}\n' % body
-    key = 'C11|%s|%s|%s|%s%s' % (cfg, kind, stat, ','.join(str(f) for f in forms), '|cond' if cond else '')
+    key = 'C11|%s|%s|%s|%s%s%s' % (cfg, kind, stat, ','.join(str(f) for f in forms), '|cond' if cond else '', '|wc' if wc else '')
     depth = sum(1 for s in stat if s != 'd') + (cfg.count('+'))
     return Case(key, src, {'config': cfg, 'kind': kind, 'status': stat, 'field_types': [FORMS[f] for f in forms]}, expect='accept', run=True, depth=depth)
 
@@ -194,6 +200,19 @@ def generate(tier):
                     c = build(cfg, kind, stat, forms, cond)
                     if c is not None:
                         cases.append(c)
+    # the same with the bounds in the type's own where-clause and projection-typed fields (`A::Out` under `where A: Pr`)
+    for cfg in CONFIGS:
+        kinds = ['struct', 'tuple', 'enum'] if cfg != 'Debug/flip' else ['enum']
+        for kind in kinds:
+            st = statuses(cfg)
+            plans = [(s, (f0,)) for f0 in (0, 1, 3, 6) for s in st]
+            for s in itertools.product(st, repeat=2):
+                for fa, fb in ((0, 0), (0, 3), (1, 0)) if tier == 'quick' else itertools.product((0, 1, 3, 6), repeat=2):
+                    plans.append((''.join(s), (fa, fb)))
+            for stat, forms in plans:
+                c = build(cfg, kind, stat, forms, False, wc=True)
+                if c is not None:
+                    cases.append(c)
     seen, out = set(), []
     for c in cases:
         if c.key not in seen:
